@@ -154,17 +154,29 @@ func c13Cmd(args []string) error {
 
 	beds := map[string]*client.Client{}
 
-	for _, mode := range []string{app.Decision, app.Envoy, app.Proxy} {
+	// the fourth service is a proxy that trusts nobody: what it is told in X-Forwarded-* headers it does not
+	// interpret itself is the client's business and reaches the pipeline like any other header
+	for _, bed := range []string{app.Decision, app.Envoy, app.Proxy, "proxy_untrusted"} {
+		mode := bed
+		if bed == "proxy_untrusted" {
+			mode = app.Proxy
+		}
+
 		svc := "decision"
 		if mode == app.Proxy {
 			svc = "proxy"
+		}
+
+		trusted := []string{"127.0.0.1"}
+		if bed == "proxy_untrusted" {
+			trusted = []string{"10.255.255.1"}
 		}
 
 		a, err := app.Start(app.Options{
 			Mode: mode,
 			Config: map[string]any{
 				"mechanisms": catalogue,
-				"serve":      map[string]any{svc: map[string]any{"trusted_proxies": []string{"127.0.0.1"}}},
+				"serve":      map[string]any{svc: map[string]any{"trusted_proxies": trusted}},
 			},
 			FactoryDecorator: scripted.Decorator(scripted.NewRecorder()),
 		})
@@ -204,7 +216,7 @@ func c13Cmd(args []string) error {
 		cl := client.New(a, up)
 		defer cl.Close()
 
-		beds[mode] = cl
+		beds[bed] = cl
 	}
 
 	w, err := trace.Create(*tracePath)
@@ -300,6 +312,7 @@ func c13Cmd(args []string) error {
 		}
 
 		canonH["all:X-Custom"] = canonH["X-Custom"] // the map of all headers says the same
+		canonH["X-Forwarded-Port"], canonH["all:X-Forwarded-Port"] = "8443", "8443"
 
 		block := rng.Intn(6) == 0
 		if block {
@@ -339,7 +352,11 @@ func c13Cmd(args []string) error {
 		)
 
 		if method == "POST" || method == "PUT" {
-			switch rng.Intn(6) {
+			switch rng.Intn(7) {
+			case 6: // two Content-Type lines: the pipeline sees the body as the same thing on every way in
+				body = []byte(`{"role":"admin"}`)
+				hdrs = append(hdrs, [2]string{"Content-Type", "text/plain"}, [2]string{"Content-Type", "application/json"})
+				canonBody = `{"role":"admin"}` // (the decoder finds the JSON type in the joined value)
 			case 4: // a content type that announces JSON, and no body at all
 				hdrs = append(hdrs, [2]string{"Content-Type", "application/json"})
 			case 5: // the same for a form
@@ -360,7 +377,8 @@ func c13Cmd(args []string) error {
 		}
 
 		hdrs = append(hdrs,
-			[2]string{"X-V-Echo-Headers", "X-Custom"},
+			[2]string{"X-Forwarded-Port", "8443"}, // not among the headers heimdall reads: an ordinary header
+			[2]string{"X-V-Echo-Headers", "X-Custom,X-Forwarded-Port"},
 			[2]string{"X-V-Echo-Cookies", "sid,theme"},
 			[2]string{"X-V-Echo-Body", "1"})
 
@@ -460,11 +478,15 @@ func c13Exec(beds map[string]*client.Client, c *c13Case) error {
 		path += "?"
 	}
 
-	for _, entry := range []string{"decision", "envoy", "envoy_split", "proxy"} {
+	for _, entry := range []string{"decision", "envoy", "envoy_split", "proxy", "proxy_untrusted"} {
 		var (
 			req  client.Request
 			mode string
 		)
+
+		if entry == "proxy_untrusted" && scheme != "http" {
+			continue // a proxy that trusts nobody knows the scheme of its own connection only
+		}
 
 		switch entry {
 		case "decision":
@@ -484,6 +506,10 @@ func c13Exec(beds map[string]*client.Client, c *c13Case) error {
 			req = client.Request{Method: method, Host: host, Path: path, Query: query, Body: body, Chunked: l.Chunked}
 			req.Headers = append(req.Headers, [2]string{"X-Forwarded-Proto", scheme})
 			req.Headers = append(req.Headers, hdrs...)
+		case "proxy_untrusted":
+			mode = app.Proxy
+			req = client.Request{Method: method, Host: host, Path: path, Query: query, Body: body, Chunked: l.Chunked}
+			req.Headers = append(req.Headers, hdrs...)
 		default:
 			mode = app.Envoy
 			req = client.Request{
@@ -492,7 +518,12 @@ func c13Exec(beds map[string]*client.Client, c *c13Case) error {
 			}
 		}
 
-		o, err := beds[mode].Do(c.ID+"-"+entry, req)
+		bed := mode
+		if entry == "proxy_untrusted" {
+			bed = entry
+		}
+
+		o, err := beds[bed].Do(c.ID+"-"+entry, req)
 		if err != nil {
 			return err
 		}
